@@ -177,6 +177,11 @@ func (c *cctx) evalIdent(id *ast.Ident) cval {
 			}
 			for _, p := range append([]*types.Var{x.recv}, x.params...) {
 				if p != nil && p.Name() == name {
+					// parameters denote their entry values (the caller's view);
+					// what they point to is read from the current state
+					if val, ok := x.entry.vars[p]; ok {
+						return cval{val, p.Type()}
+					}
 					if val, ok := c.st.vars[p]; ok {
 						return cval{val, p.Type()}
 					}
@@ -201,7 +206,7 @@ func (c *cctx) evalIdent(id *ast.Ident) cval {
 	var pkg *types.Package
 	if c.callee != nil {
 		pkg = x.eng.typesPkg(c.callee.Pkg)
-	} else {
+	} else if x.pkg != nil {
 		pkg = x.pkg.Types
 	}
 	if pkg != nil {
@@ -538,6 +543,9 @@ func (c *cctx) lookupVarOK(name string) (*types.Var, bool) {
 func (c *cctx) pkgOfClause() string {
 	if c.callee != nil {
 		return c.callee.Pkg
+	}
+	if c.x.pkg == nil {
+		return ""
 	}
 	return c.x.pkg.PkgPath
 }
